@@ -3,9 +3,10 @@
    what it raises derives from Exception; it therefore does not depend on the fidelity of the
    model of _is_instance.  The handler table of _check_type and the class raised on a False
    verdict are regenerated from the source on every run.                                     *)
-From Coq Require Import List Arith Bool ZArith.
+From Coq Require Import List Arith Bool ZArith String.
 From PV Require Import Base.Exn Base.Values Base.Ann Model.CheckerCfg Model.Checker Spec.Conforms
-  Gen.CheckerTables Proofs.CheckerGood Proofs.CheckerRefine Proofs.CheckerSpec Proofs.CheckerTop Proofs.CheckerRaises.
+  Gen.CheckerTables Proofs.CheckerGood Proofs.CheckerRefine Proofs.CheckerSpec Proofs.CheckerTop Proofs.CheckerRaises
+  Base.PyCall Model.PedanticCfg Model.Pedantic Gen.Pedantic Proofs.PedanticBase Proofs.PedanticWitness Proofs.PedanticC08.
 Import ListNotations.
 
 Definition cfg := Gen.CheckerTables.checker_cfg.
@@ -14,7 +15,7 @@ Theorem C08_generated_config_good : cfg_good cfg = true.
 Proof. vm_compute. reflexivity. Qed.
 Print Assumptions C08_generated_config_good.
 
-Lemma good : good_facts cfg.
+Lemma good : CheckerGood.good_facts cfg.
 Proof. apply cfg_good_facts. exact C08_generated_config_good. Qed.
 
 Theorem C08_check_type_contains : forall ctx (inner : ann -> value -> tvenv -> res),
@@ -40,6 +41,47 @@ Theorem C08_model_total : forall ctx a v tv,
   match fst (assert_matches1 cfg ctx a v tv) with Ok _ => True | Raise r => is_pedantic r = true end.
 Proof. intros ctx a v tv. exact (assert_matches1_contained cfg ctx good a v tv). Qed.
 Print Assumptions C08_model_total.
+
+(* ---- the wrapper half ------------------------------------------------------------------------------------------
+   over the call protocol regenerated from function_call.py / fn_deco_pedantic.py: whatever leaves a call of a
+   @pedantic function is a PedanticException, an exception of the body, or Python's own TypeError for a call the
+   signature does not accept - for every signature, call, body and every checker raising only PedanticExceptions.
+   FULL STATEMENT (without `machinery_ok`) is false on the current tree: see the _refuted theorem below
+   (known finding of the source-text heuristic family: FunctionCall indexes args[0] / full_name.split('.')[-2]). *)
+Theorem C08_generated_protocol_good : pc_good Gen.Pedantic.pedantic_cfg = true.
+Proof. vm_compute. reflexivity. Qed.
+Print Assumptions C08_generated_protocol_good.
+
+Theorem C08_wrapper_adds_nothing_partial : forall check consumes,
+  (forall a v tv e tv', check a v tv = (Raise e, tv') -> is_pedantic e = true) ->
+  forall f c bd, machinery_ok f c ->
+  allowed f c bd (fst (run Gen.Pedantic.pedantic_cfg check consumes f c bd)).
+Proof. intros check consumes Hc. exact (wrapper_adds_nothing _ check consumes C08_generated_protocol_good Hc). Qed.
+Print Assumptions C08_wrapper_adds_nothing_partial.
+
+(* with the modelled assert_value_matches_type as the checker the hypothesis on `check` is C08_model_total *)
+Theorem C08_wrapper_with_model_checker_partial : forall ctx consumes f c bd, machinery_ok f c ->
+  allowed f c bd (fst (run Gen.Pedantic.pedantic_cfg (assert_matches1 cfg ctx) consumes f c bd)).
+Proof.
+  intros ctx consumes f c bd. apply C08_wrapper_adds_nothing_partial.
+  intros a v tv e tv' H. pose proof (C08_model_total ctx a v tv) as Ht. rewrite H in Ht. exact Ht.
+Qed.
+Print Assumptions C08_wrapper_with_model_checker_partial.
+
+(* the excluded region really violates the full statement: K.plain(self=k, x=1) - the receiver passed by keyword *)
+Theorem C08_wrapper_index_error_refuted : exists f c bd,
+  fst (run Gen.Pedantic.pedantic_cfg (assert_matches1 cfg (fun _ => None)) (fun _ _ => false) f c bd) = Raise IndexErrorC
+  /\ ~ allowed f c bd (Raise IndexErrorC).
+Proof.
+  exists (method "plain"%string self_name [par x_ PosOrKw (ACls CInt) None] plain_text),
+         (kwcall [] [(self_name, k_inst); (x_, VInt 1%Z)]), (returns VNone).
+  split; [vm_compute; reflexivity|].
+  intros [H | [[b [cons H]] | [pos H]]].
+  - vm_compute in H. discriminate H.
+  - vm_compute in H. discriminate H.
+  - apply py_bind_type_error in H. discriminate H.
+Qed.
+Print Assumptions C08_wrapper_index_error_refuted.
 
 (* non-vacuity: an inner checker that raises AttributeError / IndexError / RecursionError-like classes *)
 Example ex_inner_raises :
